@@ -33,6 +33,28 @@ def names(fn):
     return [paths.short(callee_name(t)) for b, t in fn.calls()]
 
 
+def _ddd_in_range(F, pe, site):
+    """Where parse_escape returns (value as u8, 3): the facts in force imply value <= 255 (the narrowing loses nothing)
+    and at least three octets remain -- decided by the linear engine, whatever way the comparisons are spelled."""
+    from qv.bounds import Analyzer, le, lin
+    from rules import e5
+    b, st = site
+    A = Analyzer(pe, F, e5.make_summary(F))
+    o = st['rv']['ops'][0]
+    if not is_place(o) or o['pl']['p']:
+        return False
+    sd = pe.single_def(o['pl']['l'])
+    if not sd or sd[2] != 'assign' or sd[3]['rv']['k'] != 'cast' or not sd[3]['rv']['ck'].startswith('IntToInt'):
+        return False
+    A._site = (sd[0], sd[1])
+    v = A.ev_op(sd[3]['rv']['op'])
+    L = lin(A.atom_len({'l': 1, 'p': ['deref'], 'ty': ''}))
+    if v is None:
+        return False
+    ok, _, _ = A.prove(sd[0], sd[1], [le(v, lin(c=255)), le(lin(c=3), L)])
+    return ok
+
+
 def check(R, F):
     from rules.name_rules import check_case_folding_callers
     check_case_folding_callers(R, F)
@@ -116,7 +138,7 @@ def check(R, F):
     oks = [(b, st) for b, bl in enumerate(pe.blocks) if not bl['cleanup'] for st in bl['stmts'] if st['k'] == 'assign' and st['rv']['k'] == 'agg' and st['rv']['ak'] == 'tuple' and len(st['rv']['ops']) == 2]
     lens = sorted(const_int(st['rv']['ops'][1]) for b, st in oks)
     gd = [paths.dom_guards(pe, b, variants=False) for b, st in oks if const_int(st['rv']['ops'][1]) == 3]
-    ok = lens == [1, 3] and gd and has(gd[0], r'^Gt\(.*,255_usize\) in \[0\]$') and has(gd[0], r'^Lt\(slice::len\(arg1\),3_usize\) in \[0\]$') and sum(1 for x in gd[0] if 'is_ascii_digit' in x and x.endswith('not in [0]')) >= 3
+    ok = lens == [1, 3] and gd and _ddd_in_range(F, pe, [(b, st) for b, st in oks if const_int(st['rv']['ops'][1]) == 3][0]) and sum(1 for x in gd[0] if 'is_ascii_digit' in x and x.endswith('not in [0]')) >= 3
     R.require(ok, 'escaping', pe.gpath, pe.where(), '\\DDD needs three digits and value <= 255; otherwise one octet', 'parse_escape accepts lengths %s under %s' % (lens, gd[0] if gd else None))
     fs = F.fn('name::<impl std::str::FromStr for std::boxed::Box<name::Name>>::from_str')
     nl = calls_in(fs, 'name::builder::NameBuilder::next_label')
